@@ -644,12 +644,13 @@ struct ReadOnly : Profile {
                         ctx.fail("close-failed", "close-failed:writer", strf("closing the second client's id failed: %s", herr().c_str()));
                     writer_fid = FAIL;
                 }
-                if (p.knob("oldversion", 0)) {
+                if (p.knob("oldversion", 0) && !noversion) {
                     // pretend the file was written by an older release: patch the stored library version (first
                     // 12 bytes of the DFTAG_VERSION element are major, minor, release)
                     auto it = simfs::disk().find(mx.path);
                     std::vector<uint8_t> f = simfs::file_bytes(simfs::disk(), mx.path);
-                    for (size_t d = 10; d + 12 <= f.size() && d < 10 + 12 * 64; d += 12)
+                    size_t nd = f.size() > 6 ? (((size_t)f[4] << 8) | f[5]) : 0; // entries of the first descriptor block
+                    for (size_t d = 10; d + 12 <= f.size() && d < 10 + 12 * nd; d += 12)
                         if (f[d] == 0 && f[d + 1] == 30) { // tag 30 in the first descriptor block
                             size_t   off = ((size_t)f[d + 4] << 24) | ((size_t)f[d + 5] << 16) | ((size_t)f[d + 6] << 8) | f[d + 7];
                             uint8_t  old[12] = {0, 0, 0, 4, 0, 0, 0, 2, 0, 0, 0, 10};
